@@ -17,6 +17,7 @@ import Goat.Driver.Incr
 import Goat.Driver.Host
 import Goat.Driver.Backtrace
 import Goat.Driver.MiniGo
+import Goat.Driver.Resolve
 /-! goatmodel: one operation per input line, one canonical output line per operation. -/
 open Goat.Driver
 
@@ -27,6 +28,7 @@ structure DriverState where
   slice : SliceState := {}
   heap : Goat.Print.Heap := []
   rl : RlState := {}
+  rs : Goat.Resolve.Tab := { keys := [], compiled := [] }
 
 def step (st : DriverState) (line : String) : DriverState × String :=
   match (line.trimAscii.toString.splitOn " ").filter (· ≠ "") with
@@ -41,6 +43,7 @@ def step (st : DriverState) (line : String) : DriverState × String :=
   | "host" :: args => (st, hostCmd false args)
   | "hostfunc" :: args => (st, hostCmd true args)
   | "incr" :: args => (st, incrCmd args)
+  | "rs" :: args => let (r, o) := rsCmd st.rs args; ({ st with rs := r }, o)
   | "rl" :: args => let (r, o) := rlCmd st.rl args; ({ st with rl := r }, o)
   | "print" :: args => let (h, o) := printCmd st.heap args; ({ st with heap := h }, o)
   | "slice" :: args => let (s, o) := sliceCmd st.slice args; ({ st with slice := s }, o)
